@@ -1,5 +1,6 @@
-(* CacheProofs3.v — concrete histories: witnesses of the three classes the property does not survive
-   (pre-epoch mtimes, the --in-place flag, a transform called "<none>"), and non-vacuity examples.
+(* CacheProofs3.v — concrete histories: witnesses of the class the property does not survive (KC3: two
+   transform configurations whose id strings coincide), regression examples for the repaired classes
+   (pre-epoch mtimes, --in-place), and non-vacuity examples.
    Everything here is closed: a toy injective hash and small transforms, evaluated by vm_compute. *)
 From FV Require Import Base CacheModel CacheProofs CacheProofs2.
 Open Scope N_scope.
@@ -19,68 +20,90 @@ Definition cached_answer H T h a tr (p : prog result) : result :=
 Definition plain_answer H T h a tr (p : prog result) : result :=
   run_plain H T a tr p (snd (exec H T ([], empty_world) h)).
 
-(* ---- KC1: every mtime before the epoch is stored as 0 ms ---- *)
+(* ---- mtimes before the epoch (the former KC1, repaired): distinct ms values, so the rewrite is seen ---- *)
 Definition hK1 : list event :=
   [EvEdit (ECreate 1 id7 [97] (-5000000000)%Z); EvRun 0 None (ask 1 0 1); EvEdit (EWrite 1 [98] (-9000000000)%Z)].
 
-Lemma KC1_witness :
-  mtime_determines (moments Hx Tid ([], empty_world) hK1) /\
-  no_none_cmd ((0, None) :: confs hK1) /\ flags_irrelevant Tid ((0, None) :: confs hK1) /\
-  nofail (probe 1 0 1) /\
-  ~ no_preepoch (moments Hx Tid ([], empty_world) hK1) /\
-  cached_answer Hx Tid hK1 0 None (probe 1 0 1) <> plain_answer Hx Tid hK1 0 None (probe 1 0 1).
+Lemma ex_preepoch :
+  stamp_determines (moments Hx Tid ([], empty_world) hK1) /\
+  lookup (tree_of 0 None) (id7, 0, 1) (fst (exec Hx Tid ([], empty_world) hK1)) = Some (mkE (-5000)%Z 1 1 (Hx 0 [97])) /\
+  cached_answer Hx Tid hK1 0 None (probe 1 0 1) = RHash (Hx 0 [98]) /\
+  plain_answer Hx Tid hK1 0 None (probe 1 0 1) = RHash (Hx 0 [98]).
 Proof.
-  split; [apply mtime_determines_b_sound; vm_compute; reflexivity|].
-  split; [intros a c [E|[E|[]]]; discriminate E|].
-  split; [intros a1 c1 a2 c2 [E|[E|[]]]; discriminate E|].
-  split; [cbn [probe nofail c_io]; auto|].
-  split.
-  - intros Hp.
-    specialize (Hp (mkW [(id7, mkI [97] (-5000000000)%Z)] [(1, id7)]) id7 (mkI [97] (-5000000000)%Z)).
-    assert (X : (0 <= -5000000000)%Z); [|lia].
-    apply Hp; [|reflexivity]. vm_compute. auto.
-  - vm_compute. intros E. discriminate E.
+  split; [apply stamp_determines_b_sound; vm_compute; reflexivity|].
+  split; [vm_compute; reflexivity|]. split; vm_compute; reflexivity.
 Qed.
 
-(* ---- KC2: the same command string with and without --in-place shares one tree ---- *)
-Definition sedc (inplace : bool) : tconf := mkT [115; 101; 100] inplace false.
+(* ---- --in-place (the former KC2, repaired): the same command with and without it gets two trees ---- *)
+Definition sedc (inplace : bool) : tconf := mkT [115; 101; 100] inplace true.
 Definition hK2 : list event :=
   [EvEdit (ECreate 1 id7 [97; 98] 5000000%Z); EvRun 0 (Some (sedc false)) (ask 1 0 2)].
 
-Lemma KC2_witness :
-  mtime_determines (moments Hx Tip ([], empty_world) hK2) /\ no_preepoch (moments Hx Tip ([], empty_world) hK2) /\
-  no_none_cmd ((0, Some (sedc true)) :: confs hK2) /\
-  nofail (probe 1 0 2) /\
-  (t_cmd (sedc true) = t_cmd (sedc false) /\ Tip (sedc true) [97; 98] <> Tip (sedc false) [97; 98]) /\
-  cached_answer Hx Tip hK2 0 (Some (sedc true)) (probe 1 0 2) <> plain_answer Hx Tip hK2 0 (Some (sedc true)) (probe 1 0 2).
+Lemma ex_inplace_switch :
+  tree_of 0 (Some (sedc true)) <> tree_of 0 (Some (sedc false)) /\
+  no_alias ((0, Some (sedc true)) :: confs hK2) /\
+  Tip (sedc true) [97; 98] <> Tip (sedc false) [97; 98] /\
+  cached_answer Hx Tip hK2 0 (Some (sedc true)) (probe 1 0 2) = plain_answer Hx Tip hK2 0 (Some (sedc true)) (probe 1 0 2).
 Proof.
-  split; [apply mtime_determines_b_sound; vm_compute; reflexivity|].
-  split; [apply preepoch_b_sound; vm_compute; reflexivity|].
-  split; [intros a c [E|[E|[]]]; injection E as _ <-; vm_compute; intros E; discriminate E|].
-  split; [cbn [probe nofail c_io]; auto|].
-  split; [split; [reflexivity|vm_compute; intros E; discriminate E]|].
-  vm_compute. intros E. discriminate E.
+  split; [vm_compute; intros E; discriminate E|].
+  split; [apply alias_b_sound; vm_compute; reflexivity|].
+  split; [vm_compute; intros E; discriminate E|].
+  vm_compute. reflexivity.
 Qed.
 
-(* ---- KC3: a transform whose command string is "<none>" shares the tree of "no transform" ---- *)
-Definition nonec : tconf := mkT none_str false false.
+(* ---- KC3: the transform id is a plain concatenation, so two different configurations can get one tree ---- *)
+(* (a) an id that reads "<none>" shares the tree of "no transform" (needs command "<none>" with copy = true and
+       no --in-place: not constructible through the command line, where copy = "$IN occurs in the command") *)
+Definition nonec : tconf := mkT none_str false true.
 Definition hK3 : list event :=
   [EvEdit (ECreate 1 id7 [97; 98] 5000000%Z); EvRun 0 None (ask 1 0 2)].
 
 Lemma KC3_witness :
-  mtime_determines (moments Hx Thead ([], empty_world) hK3) /\ no_preepoch (moments Hx Thead ([], empty_world) hK3) /\
-  flags_irrelevant Thead ((0, Some nonec) :: confs hK3) /\
+  mtime_determines (moments Hx Thead ([], empty_world) hK3) /\ preepoch_whole_ms (moments Hx Thead ([], empty_world) hK3) /\
   nofail (probe 1 0 2) /\
-  t_cmd nonec = none_str /\
+  tree_of 0 (Some nonec) = tree_of 0 None /\
   cached_answer Hx Thead hK3 0 (Some nonec) (probe 1 0 2) <> plain_answer Hx Thead hK3 0 (Some nonec) (probe 1 0 2).
 Proof.
   split; [apply mtime_determines_b_sound; vm_compute; reflexivity|].
-  split; [apply preepoch_b_sound; vm_compute; reflexivity|].
-  split; [intros a1 c1 a2 c2 I1 I2 _ d; reflexivity|].
+  split; [apply preepoch_fraction_b_sound; vm_compute; reflexivity|].
   split; [cbn [probe nofail c_io]; auto|].
   split; [reflexivity|].
   vm_compute. intros E. discriminate E.
 Qed.
+
+(* (b) a command that ends in the text " --in-place" (passed to the program as an argument) and the shorter
+       command run with fclones' --in-place: reachable through the command line *)
+Definition cmdx : list N := [115; 32; 36; 73; 78].                 (* "s $IN" *)
+Definition cA : tconf := mkT (cmdx ++ inplace_str) false true.    (* --transform 's $IN --in-place' *)
+Definition cB : tconf := mkT cmdx true true.                      (* --transform 's $IN' --in-place *)
+Definition hK3b : list event :=
+  [EvEdit (ECreate 1 id7 [97; 98] 5000000%Z); EvRun 0 (Some cA) (ask 1 0 2)].
+
+Lemma KC3b_witness :
+  mtime_determines (moments Hx Tip ([], empty_world) hK3b) /\ preepoch_whole_ms (moments Hx Tip ([], empty_world) hK3b) /\
+  nofail (probe 1 0 2) /\
+  (cA <> cB /\ tree_of 0 (Some cA) = tree_of 0 (Some cB) /\ Tip cA [97; 98] <> Tip cB [97; 98]) /\
+  cached_answer Hx Tip hK3b 0 (Some cB) (probe 1 0 2) <> plain_answer Hx Tip hK3b 0 (Some cB) (probe 1 0 2).
+Proof.
+  split; [apply mtime_determines_b_sound; vm_compute; reflexivity|].
+  split; [apply preepoch_fraction_b_sound; vm_compute; reflexivity|].
+  split; [cbn [probe nofail c_io]; auto|].
+  split; [split; [intros E; discriminate E|split; [vm_compute; reflexivity|vm_compute; intros E; discriminate E]]|].
+  vm_compute. intros E. discriminate E.
+Qed.
+
+(* ---- the two roundings of a pre-epoch mtime: -0.7 ms and +0.7 ms are different milliseconds when rounded down
+        (-1 and 0) but both are 0 for timestamp_ms; a same-size rewrite between them is served the old hash.
+        Excluded by stamp_determines (and by preepoch_whole_ms in the down-rounded form) ---- *)
+Definition hEpoch : list event :=
+  [EvEdit (ECreate 1 id7 [97] (-700000)%Z); EvRun 0 None (ask 1 0 1); EvEdit (EWrite 1 [98] 700000%Z)].
+Lemma epoch_bucket :
+  mtime_determines_b (moments Hx Tid ([], empty_world) hEpoch) = true /\
+  stamp_determines_b (moments Hx Tid ([], empty_world) hEpoch) = false /\
+  preepoch_fraction_b (moments Hx Tid ([], empty_world) hEpoch) = true /\
+  cached_answer Hx Tid hEpoch 0 None (probe 1 0 1) = RHash (Hx 0 [97]) /\
+  plain_answer Hx Tid hEpoch 0 None (probe 1 0 1) = RHash (Hx 0 [98]).
+Proof. vm_compute. auto 6. Qed.
 
 (* ---- what the proviso itself excludes: a same-size rewrite that keeps the millisecond ---- *)
 Definition hSame : list event :=
@@ -101,13 +124,13 @@ Definition hRewrite : list event :=
 Lemma ex_rewrite_invalidated :
   stamp_determines (moments Hx Tid ([], empty_world) hRewrite) /\
   tree_faithful Tid ((0, None) :: confs hRewrite) /\
-  lookup (tree_of 0 None) (id7, 0, 3) (fst (state_after hRewrite)) = Some (mkE 5 3 3 (Hx 0 [97; 98; 99])) /\
+  lookup (tree_of 0 None) (id7, 0, 3) (fst (state_after hRewrite)) = Some (mkE 5%Z 3 3 (Hx 0 [97; 98; 99])) /\
   (exists m, meta_of (snd (state_after hRewrite)) 1 = Some m /\
              cache_get (tree_of 0 None) (id7, 0, 3) m (fst (state_after hRewrite)) = None) /\
   cached_answer Hx Tid hRewrite 0 None (probe 1 0 3) = RHash (Hx 0 [97; 98; 100]).
 Proof.
   split; [apply stamp_determines_b_sound; vm_compute; reflexivity|].
-  split; [apply tree_faithful_of; [intros a c [E|[E|[]]]; discriminate E | intros a1 c1 a2 c2 [E|[E|[]]]; discriminate E]|].
+  split; [apply tree_faithful_of; apply alias_b_sound; vm_compute; reflexivity|].
   split; [vm_compute; reflexivity|].
   split; [eexists; split; vm_compute; reflexivity|].
   vm_compute. reflexivity.
@@ -134,7 +157,7 @@ Definition hReuse : list event :=
    EvEdit (ECreate 2 id7 [120; 121; 122] 7000000%Z)].
 Lemma ex_inode_reuse :
   stamp_determines (moments Hx Tid ([], empty_world) hReuse) /\
-  lookup (tree_of 0 None) (id7, 0, 3) (fst (state_after hReuse)) = Some (mkE 5 3 3 (Hx 0 [97; 98; 99])) /\
+  lookup (tree_of 0 None) (id7, 0, 3) (fst (state_after hReuse)) = Some (mkE 5%Z 3 3 (Hx 0 [97; 98; 99])) /\
   cached_answer Hx Tid hReuse 0 None (probe 2 0 3) = RHash (Hx 0 [120; 121; 122]).
 Proof.
   split; [apply stamp_determines_b_sound; vm_compute; reflexivity|].
@@ -158,10 +181,6 @@ Lemma ex_switches :
 Proof.
   split; [apply stamp_determines_b_sound; vm_compute; reflexivity|].
   split.
-  - apply tree_faithful_of.
-    + intros a c Hin. cbn [confs hSwitch In] in Hin.
-      repeat (destruct Hin as [E|Hin]; [try discriminate E; injection E as _ <-; vm_compute; intros X; discriminate X|]).
-      contradiction.
-    + intros a1 c1 a2 c2 _ _ _ d. reflexivity.
+  - apply tree_faithful_of. apply alias_b_sound. vm_compute. reflexivity.
   - split; vm_compute; reflexivity.
 Qed.
